@@ -131,6 +131,9 @@ class FsmWorld(pipe.PipeWorld):
         import git
 
         super().build()
+        # fault 'slow reactor': the callback of a finished background step (deferToThread) may reach the reactor a
+        # little late - other events slip in between a poll and its callback (most runs: no delay)
+        self.sim.cb_delays = self.cfg.get('cb_delays', [0, 0, 0, 0.05, 0.3])
         os.makedirs(os.path.join(self.dir, 'ae', '.git'), exist_ok=True)
         ctx.ae_repository_branch_ops = self.ops_branch
         ctx.ae_repository_branch_stable = 'stable'
@@ -260,7 +263,7 @@ class FsmWorld(pipe.PipeWorld):
         for th in sim.threads:
             if not th.done and not th.dead and any(th.name.endswith(':' + b) for b in BACKGROUND):
                 out.append(th.name)
-        for seq, fn in sim.fromthread:
+        for _seq, fn, _ready in sim.fromthread:
             out.append('callback:' + getattr(fn, '__name__', 'f'))
         for p in sim.processes:
             if p.alive:
@@ -394,7 +397,7 @@ class FsmWorld(pipe.PipeWorld):
             if ok:
                 if self.cycle.get('hold_since') is None:
                     self.cycle['hold_since'] = self.sim.now
-                elif self.cycle['P'] == 2 and self.sim.now - self.cycle['hold_since'] > 3 * 0.2 + 0.6:
+                elif self.cycle['P'] == 2 and self.sim.now - self.cycle['hold_since'] > 3 * 0.2 + 0.6 + 2 * max(self.sim.cb_delays or [0]):
                     # promptness is demanded for crew_idle only: 'no busy worker' is the same fact for the pipeline
                     # (farm._busy, see C03) and for the ground truth, whereas the pipeline's own notions of 'nothing
                     # executing' and 'queue empty' may lag behind ground truth without contradicting the statement
@@ -435,6 +438,8 @@ class FsmWorld(pipe.PipeWorld):
         names = self.cfg.get('priorities') or ['todo_empty', 'doing_empty', 'crew_idle', 'now', 'todo_empty', 'crew_idle', 'garbage']
         prio = names[ch.choose('sub.priority', len(names))]
         cs = f'cs{self.nsub}'
+        if ch.flip('sub.label_grows', 1, 2) and self.git_history:
+            cs = f'{self.git_history[-1]}.{self.nsub}'  # a label that starts with the one in operation (v2.1 -> v2.1.1)
         if ch.flip('sub.already_applied', 1, 12) and len(self.git_history) > 1:
             cs = self.git_history[-1]
         sub = dict(changeset=cs, priority=prio, n=self.nsub)
@@ -582,14 +587,17 @@ class FsmWorld(pipe.PipeWorld):
             n = self.reloads
             p = self.cycle['P']
             self.probes['liveness_window_' + PRIO_NAMES[p]] += 1
-            sim.run(until=lambda: self.reloads != n or self.stopped, max_steps=budget, max_time=sim.now + 3 * 0.2 + 0.5)
+            sim.run(until=lambda: self.reloads != n or self.stopped, max_steps=budget, max_time=sim.now + 3 * 0.2 + 0.5 + 2 * max(sim.cb_delays or [0]))
             if self.stopped:
                 return
             if self.reloads == n:
                 f = self.fsm
                 stale = [nm for nm, h in (('crew', f.crew_thread), ('doing', f.doing_thread), ('todo', f.todo_thread)) if h is not None]
                 alive = [th.name for th in sim.threads if not th.done and not th.dead]
-                self.violate('C12', 'submission_never_takes_effect', f'{PRIO_NAMES[p]}:stale_handles={"+".join(stale) or "none"}',
+                # C04 speaks of the same fact from the waiter's side: 'every waiter on "queue empty" or "nothing executing"
+                # is eventually satisfied' (the crew waiter is C12's alone)
+                for pr in (('C12', 'C04') if PRIO_NAMES[p] in ('todo_empty', 'doing_empty') else ('C12',)):
+                    self.violate(pr, 'submission_never_takes_effect' if pr == 'C12' else 'waiter_not_satisfied', f'{PRIO_NAMES[p]}:stale_handles={"+".join(stale) or "none"}',
                              f'submissions {self.cycle["subs"]} accepted, strongest priority {PRIO_NAMES[p]}; nothing is pending, executing or busy '
                              f'since t={self.cycle.get("hold_since")} (now {sim.now:.2f}) but no reload is triggered; fsm.priority={f.priority} '
                              f'waiter handles still set: {stale}; live threads: {alive}; state {f.state}/{f.transitioning.name}')
